@@ -29,9 +29,7 @@ theorem decode_encode_from_la (pn la exp : Nat) (rest : Bytes)
   · split
     · simp only [Res.bind, viaWire_eq]
       rw [decode_eq_decodeDM _ _ hexp (truncWire_canonical _)]
-      simp only [truncWire, parts, pnBits24]
-      have : pn % 2 ^ 32 % 2 ^ 24 = pn % 2 ^ 24 := by omega
-      rw [this]
+      simp only [truncWire, parts, pnBits24, Nat.mod_mod]
       exact decodeDM_correct 24 pn exp (by simp) hpn hhi (by simp only [Nat.reduceSub]; omega)
     · simp only [Res.bind, viaWire_eq]
       rw [decode_eq_decodeDM _ _ hexp (truncWire_canonical _)]
@@ -57,23 +55,15 @@ theorem decode_encode_nothing_acked (pn exp : Nat) (rest : Bytes)
     decodeEncodeWire pn sjInitLargestAcked exp rest = .ok pn :=
   decode_encode_from_la pn 0 exp rest (by omega) (by omega) (by omega) (by omega) hhi
 
-/-- The Appendix-A statement read literally on the in-memory value (`encode(..).decode(..)` without the
-wire) is **false of the unchanged code**: `encode` stores `pn as u32` in `U24`, `decode` ORs all 32 bits
-into the candidate.  Replayed on the real code by harness run `C07pn` (monitor `inmem_roundtrip:u24`). -/
-theorem decode_encode_inmem_fails :
-    ¬ (∀ pn la exp : Nat, pn < 2 ^ 62 → la < pn → pn - la < 2 ^ 31 → la + 1 ≤ exp → exp ≤ pn →
-        decodeEncodeMem pn la exp = .ok pn) := by
-  intro h
-  have := h 0x04000005 0x03ff0000 0x03fffff0 (by decide) (by decide) (by decide) (by decide) (by decide)
-  revert this
-  decide
-
-/-- …and holds with exactly the extra hypothesis that, when the 3-byte form is chosen
-(`2^15 ≤ pn − la < 2^23`), bits 24‥31 of `pn` are zero. -/
-theorem decode_encode_inmem_partial (pn la exp : Nat)
+/-- **The Appendix-A statement read literally on the in-memory value** (`encode(..).decode(..)` without the
+wire, what the repo's unit tests do).  Full theorem since fix-C07-u24-mask: `encode` stores
+`pn as u32 & 0x00ff_ffff` in `U24`, so `decode` ORs only 24 bits into the candidate.  Before the fix `encode`
+stored all 32 bits (`pn as u32`), the statement was false (`decode_encode_inmem_fails`, witness kept below as
+what the fix excludes) and held only under the hypothesis "bits 24‥31 of `pn` are zero whenever the 3-byte
+form is chosen" (`decode_encode_inmem_partial`).  Harness run `C07pn`, monitor `inmem_roundtrip:u24`. -/
+theorem decode_encode_inmem (pn la exp : Nat)
     (hpn : pn < 2 ^ 62) (hla : la < pn) (hgap : pn - la < 2 ^ 31)
-    (hlo : la + 1 ≤ exp) (hhi : exp ≤ pn)
-    (hU24 : 2 ^ 15 ≤ pn - la → pn - la < 2 ^ 23 → pn % 2 ^ 32 < 2 ^ 24) :
+    (hlo : la + 1 ≤ exp) (hhi : exp ≤ pn) :
     decodeEncodeMem pn la exp = .ok pn := by
   have hexp : exp < 2 ^ 64 := by omega
   unfold decodeEncodeMem
@@ -83,19 +73,31 @@ theorem decode_encode_inmem_partial (pn la exp : Nat)
     rw [decode_eq_decodeDM _ _ hexp (by simp only [Canonical, parts, pnBits16]; exact Nat.mod_lt _ (by decide))]
     exact decodeDM_correct 16 pn exp (by simp) hpn hhi (by simp only [Nat.reduceSub]; omega)
   · split
-    · have hb := hU24 (by omega) (by omega)
-      simp only [Res.bind]
-      rw [decode_eq_decodeDM _ _ hexp (by simp only [Canonical, parts, pnBits24]; exact hb)]
-      simp only [parts, pnBits24]
-      have : pn % 2 ^ 32 = pn % 2 ^ 24 := by omega
-      rw [this]
+    · simp only [Res.bind]
+      rw [decode_eq_decodeDM _ _ hexp (by simp only [Canonical, parts, pnBits24]; exact Nat.mod_lt _ (by decide))]
       exact decodeDM_correct 24 pn exp (by simp) hpn hhi (by simp only [Nat.reduceSub]; omega)
     · simp only [Res.bind]
       rw [decode_eq_decodeDM _ _ hexp (by simp only [Canonical, parts, pnBits32]; exact Nat.mod_lt _ (by decide))]
       exact decodeDM_correct 32 pn exp (by simp) hpn hhi (by simp only [Nat.reduceSub]; omega)
 
-example : decodeEncodeMem 0x04000005 0x03ff0000 0x03fffff0 = .ok 0x06000005 := by decide
+/-- the former counterexample (pre-fix result: `.ok 0x06000005`) -/
+example : decodeEncodeMem 0x04000005 0x03ff0000 0x03fffff0 = .ok 0x04000005 := by decide
+example : encode 0x04000005 0x03ff0000 = .ok (.u24 0x000005) := by decide
+/-- what the unfixed `encode` held in memory, and what `decode` made of it -/
+example : decode (.u24 0x04000005) 0x03fffff0 = .ok 0x06000005 := by decide
 example : decodeEncodeMem 0x00ff0005 0x00fe0000 0x00fe0001 = .ok 0x00ff0005 := by decide
+
+/-- The in-memory value `encode` returns is what the receiver's parser returns for it (no bits beyond the
+encoded width): the wire is the identity on it. -/
+theorem encode_canonical (pn la : Nat) (e : PacketNumber) (rest : Bytes) (hla : la ≤ pn) (hgap : pn - la < 2 ^ 31)
+    (h : encode pn la = .ok e) : viaWire e rest = .ok e rest := by
+  rw [encode_closed pn la hla hgap] at h
+  rw [viaWire_eq]
+  split at h
+  · cases h; simp [truncWire]
+  · split at h <;> cases h <;> simp [truncWire]
+
+example : encode 0x04000005 0x03ff0000 = .ok (.u24 5) ∧ viaWire (.u24 5) [7] = .ok (.u24 5) [7] := by decide
 
 /-- `encode` does not panic on the property's domain (`pn − la` underflow, `* 2` overflow and the
 "packet number too large to encode" arm are all unreachable). -/
